@@ -31,14 +31,15 @@ type c01case struct {
 	realQUIC  bool
 	rootDir   bool
 	leftover  bool // the output directory already holds files of the same names with other content
+	prior     int  // >0: an earlier fetch of the same tree, made with this chunk size, was interrupted: part of every file and honest metadata are in the output directory
 	wrongKind bool // ... and entries of the other kind: a file where a directory goes, a directory where a file goes (C01 only: such a transfer may fail, it may not succeed wrongly)
 	twice     bool // fetch the same tree a second time into the same output (everything already there)
 	maxFiles  int
 }
 
 func (c c01case) String() string {
-	return fmt.Sprintf("seed=%d cs=%d streams=%d conns=%d resume=%v quicLike=%v realQUIC=%v rootDir=%v twice=%v leftover=%v wrongKind=%v maxFiles=%d",
-		c.seed, c.cs, c.streams, c.conns, c.resume, c.quicLike, c.realQUIC, c.rootDir, c.twice, c.leftover, c.wrongKind, c.maxFiles)
+	return fmt.Sprintf("seed=%d cs=%d streams=%d conns=%d resume=%v quicLike=%v realQUIC=%v rootDir=%v twice=%v leftover=%v wrongKind=%v prior=%d maxFiles=%d",
+		c.seed, c.cs, c.streams, c.conns, c.resume, c.quicLike, c.realQUIC, c.rootDir, c.twice, c.leftover, c.wrongKind, c.prior, c.maxFiles)
 }
 
 type c01outcome struct {
@@ -93,6 +94,9 @@ func runC01case(base string, c c01case, timeout time.Duration, env *c08env) c01o
 			os.MkdirAll(filepath.Dir(fp), 0755)
 			os.WriteFile(fp, junk, 0644)
 		}
+	}
+	if c.prior > 0 && c.resume && !c.rootDir {
+		seedPrior(src, out, c.prior, hx.NewRand(c.seed^0x5eed))
 	}
 	if c.wrongKind {
 		dst := out
@@ -261,6 +265,9 @@ func c01cases(rng *hx.Rand, n int, quicShare int) []c01case {
 		}
 		c.twice = rng.Intn(4) == 0
 		c.leftover = rng.Intn(4) == 0
+		if c.resume && !c.rootDir && !c.leftover && rng.Intn(3) == 0 {
+			c.prior = []int{c.cs, c.cs*2 + 1, c.cs + 1}[rng.Intn(3)]
+		}
 		if quicShare > 0 && i%quicShare == 0 {
 			c.realQUIC, c.quicLike = true, false
 			c.conns = rng.Pick(1, 1, 2)
@@ -317,6 +324,12 @@ func runTransfers(cfg config, rep *hx.Report, prop string, n int, quicShare int)
 		if c.wrongKind {
 			rep.Count("leftover-entries-of-the-other-kind")
 		}
+		if c.prior > 0 && c.resume && !c.rootDir {
+			rep.Count("resumed-from-an-interrupted-fetch")
+			if c.prior != c.cs {
+				rep.Count("resumed-from-an-interrupted-fetch-with-another-chunk-size")
+			}
+		}
 		if c.rootDir {
 			rep.Count("root-dir-mode")
 		}
@@ -354,7 +367,7 @@ func runTransfers(cfg config, rep *hx.Report, prop string, n int, quicShare int)
 
 func runC01(cfg config) *hx.Report {
 	rep := hx.NewReport("C01")
-	rep.Rule = "generated trees (0-10 files, sizes around k*chunk +-1, empty files, empty dirs, nesting, odd names) x chunk sizes {1,3,16,4096} x 1-8 streams x 1-3 connections x resume on/off x (a second fetch over the finished tree, the source edited in between: shortened, grown, rewritten, whole chunks blanked) x (output directory already holding files of the same names with other content; for C01 also a file where an empty directory goes or a directory where a file goes - such a transfer may fail but not succeed wrongly)  x root-directory mode x transport {in-memory with stream visibility at open, in-memory with QUIC-like visibility, real loopback QUIC}; real sender and receiver; non-trivial = at least 2 files or a multi-chunk file; distinct by (tree seed, configuration).  Plus honest stepped-receiver histories for the model correspondence"
+	rep.Rule = "generated trees (0-10 files, sizes around k*chunk +-1, empty files, empty dirs, nesting, odd names) x chunk sizes {1,3,16,4096} x 1-8 streams x 1-3 connections x resume on/off (a third of the resumed runs start from what an interrupted earlier fetch left, made with the same or another chunk size) x (a second fetch over the finished tree, the source edited in between: shortened, grown, rewritten, whole chunks blanked) x (output directory already holding files of the same names with other content; for C01 also a file where an empty directory goes or a directory where a file goes - such a transfer may fail but not succeed wrongly)  x root-directory mode x transport {in-memory with stream visibility at open, in-memory with QUIC-like visibility, real loopback QUIC}; real sender and receiver; non-trivial = at least 2 files or a multi-chunk file; distinct by (tree seed, configuration).  Plus honest stepped-receiver histories for the model correspondence"
 	n, share := 400, 5
 	if cfg.tier == "thorough" {
 		n, share = 2500, 4
